@@ -11,6 +11,7 @@ KNOWN_PREC = 'C04-precedence'
 KNOWN_EXCEPT_MARKER = 'C04-except-marker'
 KNOWN_UNBOUNDED_PART = 'C04-unbounded-extensible-part'
 KNOWN_INCLUSION = 'C04-contained-subtype-not-folded'
+KNOWN_SERIAL_MARKER = 'C04-serial-marker-inherited'
 
 
 def unbounded_extensible_part(ms):
@@ -201,6 +202,10 @@ def judge_direct(ck, cases, results):
             ck.known_hit(KNOWN_PREC, {'constraint': text, 'impl': results[i].get('ok')})
         elif unbounded_extensible_part(c['_ms']) and not (results[i].get('ok') or {}).get('ext') and ck.is_known(KNOWN_UNBOUNDED_PART):
             ck.known_hit(KNOWN_UNBOUNDED_PART, {'constraint': text, 'impl': results[i].get('ok')})
+        elif (len(c['_ms']) > 1 and not c['_ms'][-1][2] and any(m[2] for m in c['_ms'][:-1]) and (results[i].get('ok') or {}).get('ext')
+              and ck.is_known(KNOWN_SERIAL_MARKER)):
+            # X.680 50.8: the last constraint has no marker, an earlier one has, the result is flagged extensible
+            ck.known_hit(KNOWN_SERIAL_MARKER, {'constraint': text, 'impl': results[i].get('ok')})
         else:
             ck.violation('impl-violation', {k: v for k, v in c.items() if not k.startswith('_')}, constraint=text, impl=results[i],
                          meta_serial=c['_ms'], term=ser_terms[j],
